@@ -229,8 +229,9 @@ PROPS["C17"] = dict(
 )
 
 PROPS["C14"] = dict(
-    modules=["common", "hdrs", "c03", "c02", "c14"],
-    contracts=["if_none_match", "if_modified_since", "wsgi.Files.file_response", "asgi.Files.file_response"],
+    modules=["common", "hdrs", "c03", "c02", "c14", "c07"],
+    contracts=["if_none_match", "if_modified_since", "wsgi.Files.file_response", "asgi.Files.file_response", "check_path_is_file",
+               "wsgi.Files.__call__", "asgi.Files.__call__", "wsgi.Pages.__call__", "asgi.Pages.__call__"],
     refute={"quick": [2], "thorough": [1, 2, 3]},
     native="c14",
     level="other",
@@ -240,7 +241,11 @@ PROPS["C14"] = dict(
                "when the date parses and floor(change time) <= floor(parsed time); both file_response functions answer 304 "
                "exactly when the ETag validator (if present, else the date validator) matches the CURRENT stat result - they "
                "read no other state, so the answer depends only on the current file state and the presented validators - "
-               "and attach the cache headers on both outcomes. BOUNDED (labelled): the history clauses (no stale 304 after a "
+               "and attach the cache headers on both outcomes; the four applications (Files / Pages, both interfaces) take that "
+               "decision for the validators THIS request presented (WSGI: the two environ variables; ASGI: every If-None-Match "
+               "line joined into one list, the last If-Modified-Since line - loop invariant over the header list) against the "
+               "stat result that os.stat returned during THIS request for the very file that is served "
+               "(`conditional_decision`, `decided_on_current_state`, `validators_from_request`). BOUNDED (labelled): the history clauses (no stale 304 after a "
                "detectable modification, a fresh copy always revalidates in every validator form, '*' matches) are checked "
                "on real files with a virtualised clock over all single and double modification histories.",
     level_note="Trusted: ETag = uninterpreted function of (mtime, size) (A-sha-1); parsedate_to_datetime raises ValueError or "
@@ -248,7 +253,8 @@ PROPS["C14"] = dict(
                "(A-lower). Known finding (open): a size change within the same second is not seen through a Last-Modified-only "
                "validator (one-second granularity of the date validator).",
     technique="deductive verification: exact functional contracts of the validator predicates and of the 304 decision, SMT; bounded history run on a virtual file clock",
-    explanation="proved: validator predicates and the 304 decision of both interfaces; bounded: history clauses on a virtual clock.",
+    explanation="proved: validator predicates, the 304 decision of both interfaces and its wiring to the request's validators and "
+                "the current stat result in the four applications; bounded: history clauses on a virtual clock.",
 )
 
 PROPS["C10"] = dict(
